@@ -53,13 +53,11 @@ theorem legacy_forward {cfg : Cfg} (hleg : cfg.legacy = true) (hpu : cfg.legacyP
       · simp [hrn] at h
   · simp [hro, bind, Except.bind] at h
 
-theorem ok_bind {α β : Type} (a : α) (f : α → Except Err β) : (Except.ok a >>= f) = f a := rfl
-
 /-- the value a legacy storage slot had before the block -/
 def oldS (s : State) (p : Nat × Nat) : Nat := (Map.get s.storage p).getD 0
 
 theorem legacy_reverseDiff {cfg : Cfg} (hleg : cfg.legacy = true) (hfix : cfg.zeroWriteFix = true)
-    {s : State} {b : Block} {casm' : Map Nat CasmMeta} (ok : LegacyOK s casm' b)
+    {s : State} {b : Block} {casm' : Map Nat CasmMeta} (ok : LegacyOK cfg s casm' b)
     {cs0 cs1 : Map Nat Contract} (hs0 : Sorted cs0) (hs1 : Sorted cs1)
     (hrep : ∀ a c, Map.get b.diff.replaced a = some c → (Map.get cs0 a).isSome = true)
     (hnon : ∀ a c, Map.get b.diff.nonces a = some c → (Map.get cs1 a).isSome = true)
@@ -156,109 +154,6 @@ theorem legacy_reverseDiff {cfg : Cfg} (hleg : cfg.legacy = true) (hfix : cfg.ze
   rw [e1, ok_bind, e2, ok_bind, e3, ok_bind]
   rfl
 
-theorem revertClasses_inverse {cfg : Cfg} (him : cfg.removeImplicitClasses = false)
-    {s : State} {b : Block} {casm' : Map Nat CasmMeta} (ok : LegacyOK s casm' b) (s' : State)
-    (hCl : s'.classes = registerClasses b.number s.classes b.classes)
-    (hTr : s'.classTrie = updateClassTrie s.classTrie b) :
-    revertClasses cfg b.number b.diff casm' s' = .ok { s' with classes := s.classes, classTrie := s.classTrie } := by
-  obtain ⟨sCl', gCl⟩ := registerClasses_spec b.number ok.dDefs ok.sCl
-  obtain ⟨sT1, gT1⟩ := declTrie_spec b.classes ok.dDecl ok.sTr
-  have sTr' : Sorted (updateClassTrie s.classTrie b) := sorted_setAll sT1 _
-  have gTr : ∀ c, Map.get (updateClassTrie s.classTrie b) c =
-      match Map.get b.diff.migrated c with
-      | some h => some h
-      | none => match Map.get b.diff.declV1 c with
-        | some h => if Map.has b.classes c = true then some h else Map.get s.classTrie c
-        | none => Map.get s.classTrie c := by
-    intro c
-    unfold updateClassTrie
-    rw [get_setAll ok.dMig, gT1 c]
-    cases Map.get b.diff.migrated c <;> rfl
-  -- every listed class is known after the update
-  have hknown : ∀ c ∈ b.diff.declV0 ++ Map.keys b.diff.declV1, (Map.get s'.classes c).isSome = true := by
-    intro c hc
-    rw [hCl, gCl c]
-    rcases List.mem_append.1 hc with h0 | h1
-    · rcases ok.known0 c h0 with h | h
-      · cases hg : Map.get s.classes c with
-        | none => rw [hg] at h; cases h
-        | some r => rfl
-      · cases hg : Map.get s.classes c with
-        | some r => rfl
-        | none =>
-          cases hd : Map.get b.classes c with
-          | none => rw [hd] at h; cases h
-          | some d => rfl
-    · obtain ⟨x, hx⟩ := (mem_keys_iff ok.dDecl c).1 h1
-      obtain ⟨hn, d, hd, _⟩ := ok.decl1 c x hx
-      rw [hn, hd]; rfl
-  obtain ⟨s1, hok, e1, e2, e3, e4, e5, sc1, st1, gc1, gt1⟩ :=
-    removeDeclared_spec b.number ok.nodup (s := s') (by rw [hCl]; exact sCl') (by rw [hTr]; exact sTr') hknown
-  -- classes are back
-  have hclasses : s1.classes = s.classes := by
-    apply ext sc1 ok.sCl
-    intro c
-    rw [gc1 c, hCl, gCl c]
-    cases hg : Map.get s.classes c with
-    | some r =>
-      have := ok.classAt c r hg
-      have hne : ¬ (r.declaredAt = b.number) := by omega
-      simp [hne]
-    | none =>
-      cases hd : Map.get b.classes c with
-      | none => simp
-      | some d => simp [ok.defsListed c d hd]
-  -- unmigrate
-  have hmigAll : ∀ c y, Map.get b.diff.migrated c = some y → ∃ md, Map.get casm' c = some md ∧ md.migratedAt ≠ 0 := by
-    intro c y hcy
-    obtain ⟨md, h1, h2, _⟩ := ok.migOK c y hcy
-    exact ⟨md, h1, h2⟩
-  obtain ⟨tr, htr, str, gtr⟩ := unmigrateTrie_spec casm' ok.dMig st1 hmigAll
-  have htrie : tr = s.classTrie := by
-    apply ext str ok.sTr
-    intro c
-    rw [gtr c]
-    cases hm : Map.get b.diff.migrated c with
-    | some y =>
-      obtain ⟨md, h1, h2, h3⟩ := ok.migOK c y hm
-      simp only [h1, Option.map_some, h3]
-    | none =>
-      simp only []
-      rw [gt1 c, hCl, gCl c, hTr, gTr c, hm]
-      cases hd1 : Map.get b.diff.declV1 c with
-      | some x =>
-        obtain ⟨hn, d, hd, hsi⟩ := ok.decl1 c x hd1
-        have hmem : c ∈ b.diff.declV0 ++ Map.keys b.diff.declV1 :=
-          List.mem_append.2 (Or.inr ((mem_keys_iff ok.dDecl c).2 ⟨x, hd1⟩))
-        have hnt : Map.get s.classTrie c = none := by
-          cases ht : Map.get s.classTrie c with
-          | none => rfl
-          | some v =>
-            have := ok.trieSub c v ht
-            rw [hn] at this; cases this
-        simp [hn, hd, hsi, hmem, hnt]
-      | none =>
-        simp only []
-        cases hg : Map.get s.classes c with
-        | some r =>
-          have := ok.classAt c r hg
-          have hne : ¬ (r.declaredAt = b.number) := by omega
-          simp [hne]
-        | none =>
-          have hnt : Map.get s.classTrie c = none := by
-            cases ht : Map.get s.classTrie c with
-            | none => rfl
-            | some v =>
-              have := ok.trieSub c v ht
-              rw [hg] at this; cases this
-          simp [hnt]
-  unfold revertClasses
-  rw [hok, ok_bind]
-  simp only [him, Bool.false_eq_true, if_false]
-  rw [htr, ok_bind]
-  show Except.ok (⟨s1.contracts, s1.storage, s1.classes, tr, s1.hStorage, s1.hNonce, s1.hClass⟩ : State) = Except.ok _
-  rw [e1, e2, e3, e4, e5, hclasses, htrie]
-
 theorem addrsOf_mapVal (sto : List ((Nat × Nat) × Nat)) (f : (Nat × Nat) × Nat → Nat) :
     addrsOf (sto.map (fun e => (e.1, f e))) = addrsOf sto := by
   unfold addrsOf
@@ -290,7 +185,7 @@ theorem keys_histKeys1_mem (n : Nat) (ks : List Nat) (a m : Nat) :
   · rintro ⟨rfl, hp⟩
     exact ⟨a, hp, rfl⟩
 
-theorem legacy_contracts_inverse {s : State} {b : Block} {casm' : Map Nat CasmMeta} (ok : LegacyOK s casm' b)
+theorem legacy_contracts_inverse {cfg : Cfg} {s : State} {b : Block} {casm' : Map Nat CasmMeta} (ok : LegacyOK cfg s casm' b)
     {cs0 cs1 cs2 cs3 : Map Nat Contract}
     (h0 : applyDeployed b.number s.contracts b.diff.deployed = .ok cs0)
     (h1 : applyReplaced cs0 b.diff.replaced = .ok cs1)
@@ -571,8 +466,8 @@ theorem legacy_contracts_inverse {s : State} {b : Block} {casm' : Map Nat CasmMe
 
 /-- Legacy backend: `State.Revert` is the exact inverse of `State.Update`. -/
 theorem legacy_revert_update {cfg : Cfg} (hleg : cfg.legacy = true) (hfix : cfg.zeroWriteFix = true)
-    (hpu : cfg.legacyPurgeOnUpdate = false) (him : cfg.removeImplicitClasses = false)
-    {s s' : State} {b : Block} {casm' : Map Nat CasmMeta} (ok : LegacyOK s casm' b)
+    (hpu : cfg.legacyPurgeOnUpdate = false)
+    {s s' : State} {b : Block} {casm' : Map Nat CasmMeta} (ok : LegacyOK cfg s casm' b)
     (h : updateState cfg b s = .ok s') :
     revertState cfg b.number b.ver ⟨b.diff, b.oldRoot, b.newRoot⟩ casm' s' = .ok s := by
   obtain ⟨hro, hrn, cs0, cs1, cs2, cs3, h0, h1, h2, h3, hs'⟩ := legacy_forward hleg hpu h
@@ -594,7 +489,7 @@ theorem legacy_revert_update {cfg : Cfg} (hleg : cfg.legacy = true) (hfix : cfg.
     obtain ⟨v, hv, _⟩ := f2 a c hac
     rw [hv]; rfl
   have hrd := legacy_reverseDiff hleg hfix ok sc0 sc1 hrep hnon s' (by rw [hs']) (by rw [hs']) (by rw [hs']) (by rw [hs'])
-  have hcl := revertClasses_inverse (cfg := cfg) him ok s' (by rw [hs']) (by rw [hs'])
+  have hcl := revertClasses_inverse ok.toClassesOK s' (by rw [hs']) (by rw [hs'])
   have hct := legacy_contracts_inverse ok h0 h1 h2 h3
   unfold revertState
   simp only [hrn, ne_eq, not_true_eq_false, if_false]
